@@ -408,3 +408,93 @@ Proof.
   - intros p v H. unfold add_period in H. destruct (_ && _); [|inversion H; subst; exact G].
     exact (append_pres good good_parts_all mkc_good t (RStr p) v G (good_str p) H).
 Qed.
+
+(* ------------------------------------------------------------------------------ *)
+(* split: the pieces are again texts in normal form, so histories may continue on them *)
+Section SplitPres.
+  Variable P : rt -> Prop.
+  Hypothesis HStr : forall s, P (RStr s).
+  Hypothesis Hparts : forall t, P t -> Forall P (parts_of t).
+  Hypothesis Hmkc : forall k raw v, Forall P raw -> mkc k raw = Ok v -> P v.
+
+  Lemma split_items_pres keep : forall items tail ys tl, Forall P items -> Forall P tail ->
+    split_items keep items tail = (ys, tl) -> Forall (Forall P) ys /\ Forall P tl.
+  Proof.
+    induction items as [|it r IH]; intros tail ys tl Hi Ht H; cbn [split_items] in H.
+    - inversion H; subst. split; [constructor|exact Ht].
+    - inversion Hi as [|? ? Hit Hr]; subst.
+      destruct (split_items keep r []) as [ys' tl'] eqn:E.
+      destruct (IH [] ys' tl' Hr (Forall_nil _) E) as [Hy Hl].
+      destruct tail as [|t0 tail'].
+      + destruct (_ || _); inversion H; subst; split; auto.
+      + inversion H; subst. split; [|exact Hl]. constructor; [|exact Hy].
+        change (t0 :: tail' ++ [it]) with ((t0 :: tail') ++ [it]).
+        apply Forall_app; split; [exact Ht|constructor; [exact Hit|constructor]].
+  Qed.
+
+  Lemma Forall_removelast (l : list rt) : Forall P l -> Forall P (removelast l).
+  Proof. induction 1 as [|x l Hx Hl IH]; cbn; [constructor|]. destruct l; [constructor|]. constructor; assumption. Qed.
+  Lemma Forall_last (l : list rt) d : Forall P l -> P d -> P (last l d).
+  Proof. induction 1 as [|x l Hx Hl IH]; cbn; intro Hd; [exact Hd|]. destruct l; [exact Hx|now apply IH]. Qed.
+
+  Lemma split_loop_pres keep : forall sps tail ys tl, Forall (Forall P) sps -> Forall P tail ->
+    split_loop keep sps tail = (ys, tl) -> Forall (Forall P) ys /\ Forall P tl.
+  Proof.
+    induction sps as [|sp r IH]; intros tail ys tl Hs Ht H; cbn [split_loop] in H.
+    - inversion H; subst. split; [constructor|exact Ht].
+    - inversion Hs as [|? ? Hsp Hr]; subst. destruct sp as [|x sp'].
+      + now apply (IH tail).
+      + remember (x :: sp') as sp eqn:Esp.
+        destruct (split_items keep (removelast sp) tail) as [ys1 tl1] eqn:E1.
+        destruct (split_loop keep r (tl1 ++ [last sp (RStr [])])) as [ys2 tl2] eqn:E2.
+        inversion H; subst ys tl.
+        destruct (split_items_pres keep _ _ _ _ (Forall_removelast _ Hsp) Ht E1) as [Hy1 Hl1].
+        assert (F1 : Forall P (tl1 ++ [last sp (RStr [])])) by (apply Forall_app; split; [exact Hl1|constructor; [apply Forall_last; [exact Hsp|apply HStr]|constructor]]).
+        destruct (IH _ _ _ Hr F1 E2) as [Hy2 Hl2].
+        split; [apply Forall_app; split; assumption|exact Hl2].
+  Qed.
+
+  Lemma split_pres f : forall t sep keep ps, P t -> split f t sep keep = Ok ps -> Forall P ps.
+  Proof.
+    induction f as [|f IH]; intros t sep keep ps Ht H; [discriminate|]. cbn [split] in H.
+    assert (G : forall keepb, (do sps <- mapM (fun p => split f p sep (Some true)) (parts_of t);
+         let '(ys, tl) := split_loop keepb sps (if keepb then [RStr []] else []) in
+         do out <- mapM (create_similar t) ys;
+         match tl with
+         | [] => Ok out
+         | _ => do tlt <- create_similar t tl;
+                if negb (rlen tlt =? 0) || keepb then Ok (out ++ [tlt]) else Ok out
+         end) = Ok ps -> Forall P ps).
+    { intros keepb Hs. apply bind_ok in Hs as [sps [Hsps Hs]].
+      assert (Fs : Forall (Forall P) sps).
+      { pose proof (Hparts _ Ht) as Hp. clear - Hsps IH Hp. revert sps Hsps.
+        induction Hp as [|p l Hp _ IHl]; cbn; intros sps Hs.
+        - inversion Hs. constructor.
+        - apply bind_ok in Hs as [sp [Hsp Hs]]. apply bind_ok in Hs as [sps' [Hsps' Hs]]. inversion Hs; subst.
+          constructor; [eapply IH; eauto|now apply IHl]. }
+      destruct (split_loop keepb sps _) as [ys tl] eqn:EL.
+      assert (F0 : Forall P (if keepb then [RStr []] else [])) by (destruct keepb; [constructor; [apply HStr|constructor]|constructor]).
+      destruct (split_loop_pres keepb _ _ _ _ Fs F0 EL) as [Hy Hl].
+      apply bind_ok in Hs as [out [Hout Hs]].
+      assert (Fo : Forall P out).
+      { clear - Hout Hy Hmkc. revert out Hout. induction Hy as [|y ys Hy1 _ IHy]; cbn; intros out Ho.
+        - inversion Ho. constructor.
+        - apply bind_ok in Ho as [v [Hv Ho]]. apply bind_ok in Ho as [vs [Hvs Ho]]. inversion Ho; subst.
+          constructor; [exact (create_similar_pres P Hmkc t y v Hy1 Hv)|now apply IHy]. }
+      destruct tl as [|t0 tl']; [inversion Hs; subst; exact Fo|].
+      apply bind_ok in Hs as [tlt [Htlt Hs]].
+      destruct (_ || _); inversion Hs; subst; [|exact Fo].
+      apply Forall_app; split; [exact Fo|]. constructor; [|constructor]. exact (create_similar_pres P Hmkc t _ tlt Hl Htlt). }
+    destruct t.
+    - unfold str_split in H. apply bind_ok in H as [pieces [_ H]]. inversion H; subst.
+      apply Forall_forall. intros x Hx. apply in_map_iff in Hx as [s' [<- _]]. apply HStr.
+    - inversion H; subst. constructor; [exact Ht|constructor].
+    - eapply G; exact H.
+    - eapply G; exact H.
+    - eapply G; exact H.
+    - inversion H; subst. constructor; [exact Ht|constructor].
+  Qed.
+End SplitPres.
+
+Theorem split_good t sep keep ps : good t -> split_c t sep keep = Ok ps -> Forall good ps.
+Proof. apply (split_pres good good_str good_parts_all mkc_good). Qed.
